@@ -81,11 +81,11 @@ EXTRA = {
  "C07": " The usability grid also looks up 256 .. 4096 absent keys per cuckoo filter, so that every bucket of a small table is read.",
  "C20": " Round trips with eight shapes of the hasher type parameter (unit struct = null, newtype, tuple struct, None / Some field, String newtype, unit / newtype enum variants).",
  "C05": " Stage 0, the gap law beyond the enumerable horizon: under a constant unit draw (0.5, 2^-10, 1 - 2^-10, 0.375; k = 1, 3, 16) the sampler is run for 2^22 (thorough 2^27) adds and every gap it draws (skip_until hook) is compared with floor(ln u / ln(1 - k/(i+2))) evaluated in f64 (tolerance 1 + 1e-9 gap); one fixed environment answer per run, every position of the run checked.",
- "C01": " Unions with four fixed right operands are operations of the cuckoo BFS (union-then-delete sequences); Extend == insert loop for the Bloom filter (all sequences to length 4-5 over 4 letters, every split, also after clear); union with an operand of another hasher / other parameters must be rejected (accepted unions are checked for false negatives); single-element cuckoo unions over every bucket x structured fingerprints for 9 width/shape combinations; l_fingerprint = 64 with the wrap-around hash u64::MAX. The real-hasher cuckoo runs are repeated under a method-sensitive hasher (write_u8 .. write_u64, write_usize and write(bytes) each mix in their own tag): the same quantity must be hashed the same way at every site.",
+ "C01": " Unions with four fixed right operands are operations of the cuckoo BFS (union-then-delete sequences); Extend == insert loop for the Bloom filter (all sequences to length 4-5 over 4 letters, every split, also after clear); union with an operand of another hasher / other parameters must be rejected (accepted unions are checked for false negatives); single-element cuckoo unions over every bucket x structured fingerprints for 9 width/shape combinations; l_fingerprint = 64 with the wrap-around hash u64::MAX. The real-hasher cuckoo runs are repeated under a method-sensitive hasher (write_u8 .. write_u64, write_usize and write(bytes) each mix in their own tag): the same quantity must be hashed the same way at every site. Bloom unions at bit-array lengths around the 64-bit block boundaries (m = 63 .. 65, 127 .. 129, 192, 256, 1000, 1024; k = 1, 3; empty / sparse / loaded operands in both roles): no element of an operand is lost.",
  "C02": " u8 counters driven to the top of their type (weights 100/150/5/1, every sequence to depth 4): calls may panic once the total no longer fits, calls that return must not underestimate. Real-hasher runs first (default SipHash, 5 shapes, 400 operations each: bounds and add return value). Extend == add loop (all sequences to length 4-5 over 4 letters, every split, also after clear). Long Extend deliveries also with runs of equal adjacent items.",
  "C03": " (4) Exact Poisson-averaged mean of count() for b = 4..6 (thorough ..8) x 20 values of n/m: registers independent under N ~ Poisson(n), exact law of (zero registers, harmonic sum) by convolution, count() evaluated on the real sketch for every pair carrying mass; |mean| <= 1 % + 2/n for n/m >= 3 (0.35 relative_error() + 2/n below) - reads the alpha constants and bias rows of the small precisions at 1e-4 resolution.",
  "C04": " For tied shapes cdf is also evaluated at every distinct inserted value and compared literally with the empirical CDF. Shapes uniform / normal / ties-10 / cliff additionally with every value multiplied by a power of two up to n*max|v| = 2^1020 and down to max|v| = 2^-1000.",
- "C06": " Operands of another hasher (identical shift table) or with one parameter changed must be rejected by the documented panic, for all five operations; single-element cuckoo right operands over every bucket x structured fingerprints (widths 3..64). A quotient-filter union that returns Ok although both streams exceed the capacity is reported as a C06 violation (fresh filter fed both streams = Full) besides C13's 'Ok beyond capacity'.",
+ "C06": " Operands of another hasher (identical shift table) or with one parameter changed must be rejected by the documented panic, for all five operations; single-element cuckoo right operands over every bucket x structured fingerprints (widths 3..64). A quotient-filter union that returns Ok although both streams exceed the capacity is reported as a C06 violation (fresh filter fed both streams = Full) besides C13's 'Ok beyond capacity'. Bloom unions at m = 63 .. 65, 127 .. 129, 192, 256, 1000, 1024: the bit array equals the one of a filter fed both streams.",
  "C08": " A real-hasher family runs and is judged first (BuildHasherSeeded 0..300 (thorough 1500) x 8 (eps, delta) cells x adversarial heavy-hitter streams x 50 unseen queries: fraction of pairs above eps*N <= delta; a finite family, not the hash space). Constructor corners: 10 epsilons x 20 deltas from the largest double below 1 down to MIN_POSITIVE incl. e^-k +- 1 ulp: documented table shape, at least one row, usable. Three further cells of that family have d = 5, 6, 8 rows (1000 queries per seed) with a heavy-hitter count that puts the unchanged tree at 0.25-0.45 delta: every row beyond the fourth must still cut the failure fraction.",
  "C09": " 12 epsilon corners (just below / at / above 1/k, next to 0 and 1); trees also from counters that saw 1..3 elements and were cleared; width sweep 1..256 (thorough ..1024) by width and by epsilon = 1/width with a generator that keeps one element exactly one occurrence above the window index; a generator that closes every window on an already tracked element. Boundary comparisons are skipped only inside the derived f64 rounding envelope 8*2^-53*max(s,eps)*n. State-dependent thresholds eps + (k + 2^-30)/n, k = 1..6, at every node ((s - eps) n a hair above a whole number: the inclusion bound must be k + 1).",
  "C10": " Extend == add loop (all sequences to length 5-6 over 4 letters, every split, also after clear). Huge k (usize::MAX, /2, /16, 2^48, 2^40; 'every k >= 1'): constructed and fed 7 elements in a child process (an allocation abort is then a verdict, not a crash of the check); iter() must yield every distinct element. Heaps over sketches pre-loaded with counts >= 2^32 (4 patterns x k = 1..3 x every stream to length 6 over 4 letters): min(k, distinct) distinct added letters at every prefix. Quick depth 8 / 10 (was 7 / 9).",
